@@ -11,7 +11,7 @@ clock advances.  `noWrap`: times stay below the uint32 horizon of
 wraps around, which is outside these theorems.
 Concurrent logins racing between `check` and `inc` are outside the model.
 -/
-import AGH.Lemmas.AuthSim
+import AGH.Lemmas.AuthHorizon
 namespace AGH.C12
 
 /-- **The model meets the spec**: for every configuration and every timed
@@ -98,6 +98,93 @@ theorem C12_threshold {st : St} {sp : Spec} {now : Nat} (h : Sim st sp now)
       rw [login_pass hrl hleft]
       refine ⟨fun h => (by rw [hrej] at h; cases h), fun _ => ?_⟩
       cases good <;> exact ⟨rfl, rfl⟩
+
+/-- **Threshold over histories, stated without the monitor** (the property's
+first sentence).  Take ANY timed history `evs0` from a fresh start after which
+nothing is counted for address `a` (scanning it, the last relevant event is a
+restart or a successful login from `a`, or `a` never failed), followed by ANY
+history `evs1` without a restart and without a successful login from `a`, in
+which exactly `max` wrong passwords from `a` were evaluated (answered 403),
+all within one minute of the first of them.  Then every login attempt from `a`
+— right or wrong password, any proxy headers — made after `evs1` and before
+the block period since the last of those failures has elapsed is answered
+429, the password is not evaluated, no session is created.  Other addresses,
+requests, logouts and clock advances may be interleaved arbitrarily; no time
+horizon is needed. -/
+theorem C12_threshold_run (ma bm ttl t0 : Nat) (evs0 evs1 : List Ev) (a : Nat) (hen : ma > 0 ∧ bm > 0)
+    (hclean : cleanAfter a true (traceM (St.init ma bm ttl) t0 evs0) = true)
+    (hnc : noClear a (traceM (runM (St.init ma bm ttl) t0 evs0).1 (runM (St.init ma bm ttl) t0 evs0).2 evs1) = true)
+    (fs : List Nat)
+    (hfs : failTimes a (traceM (runM (St.init ma bm ttl) t0 evs0).1 (runM (St.init ma bm ttl) t0 evs0).2 evs1) = fs)
+    (hlen : fs.length = ma) (hwin : ∀ t ∈ fs, t ≤ fs.headD 0 + failedAuthTTL)
+    (d : Nat) (req : Req) (hreq : attemptAddr req = a) (good : Bool) (user : Nat) :
+    let s0 := runM (St.init ma bm ttl) t0 evs0
+    let s1 := runM s0.1 s0.2 evs1
+    s1.2 + d < fs.getLastD 0 + bm * 60 * nsPerSec →
+    (∃ r, (handleLogin s1.1 (s1.2 + d) req good user).1 = .tooMany r) ∧
+    (handleLogin s1.1 (s1.2 + d) req good user).2.evals = s1.1.evals ∧
+    (handleLogin s1.1 (s1.2 + d) req good user).2.mem = s1.1.mem ∧
+    (handleLogin s1.1 (s1.2 + d) req good user).2.db = s1.1.db := by
+  intro s0 s1 hblk
+  -- run the monitor alongside, only as a proof device
+  let sp0 := Spec.init ma bm ttl
+  have hthr0 : SimThr (St.init ma bm ttl) sp0 t0 := (sim_init ma bm ttl t0).1
+  let rA := runLock (St.init ma bm ttl) sp0 t0 evs0
+  have hmA := runLock_model evs0 (St.init ma bm ttl) sp0 t0
+  have hthrA : SimThr s0.1 rA.2.1 s0.2 := by
+    have := simThr_runLock evs0 _ sp0 t0 hthr0
+    rw [hmA.1, hmA.2] at this; exact this
+  have hconfA := runLock_conf evs0 (St.init ma bm ttl) sp0 t0
+  have hcleanA : failsOf rA.2.1 a = [] :=
+    failsOf_clean a evs0 _ sp0 t0 true (fun _ => rfl) hclean
+  let rB := runLock s0.1 rA.2.1 s0.2 evs1
+  have hmB := runLock_model evs1 s0.1 rA.2.1 s0.2
+  have hconfB := runLock_conf evs1 s0.1 rA.2.1 s0.2
+  have hmaxB : rB.2.1.max = ma := by rw [hconfB.2.1, hconfA.2.1]; rfl
+  have hbdB : rB.2.1.blockDur = bm * 60 * nsPerSec := by rw [hconfB.2.2, hconfA.2.2]; rfl
+  have henB : rB.2.1.enabled = true := by
+    rw [hconfB.1, hconfA.1]; simp [sp0, Spec.init, hen]
+  have hfB : failsOf rB.2.1 a = fs := by
+    have := failsOf_run a evs1 s0.1 rA.2.1 s0.2 [] hcleanA hnc
+      (by rw [hfs, hconfA.2.1]; simp [sp0, Spec.init, hlen])
+      (by rw [hfs]; simpa using hwin)
+    rw [hfs] at this; simpa using this
+  have hthrB : SimThr s1.1 rB.2.1 (s1.2 + d) := by
+    have := simThr_runLock evs1 s0.1 rA.2.1 s0.2 hthrA
+    rw [hmB.1, hmB.2] at this
+    exact simThr_advance d this
+  have hne : fs ≠ [] := by
+    intro e; rw [e] at hlen; simp at hlen; omega
+  have hrej : mustReject rB.2.1 (attemptAddr req) (s1.2 + d) = true := by
+    rw [hreq]
+    have hc : counted rB.2.1 a (s1.2 + d) =
+        if stillCounts rB.2.1 (failsOf rB.2.1 a) (s1.2 + d) = true then failsOf rB.2.1 a else [] := rfl
+    have hun : untilOf rB.2.1 fs = fs.getLastD 0 + bm * 60 * nsPerSec := by
+      simp [untilOf, hmaxB, hbdB, hlen]
+    have hst : stillCounts rB.2.1 fs (s1.2 + d) = true := by
+      simp only [stillCounts, Bool.and_eq_true, Bool.not_eq_true', decide_eq_true_eq, hun]
+      exact ⟨by simpa using hne, by omega⟩
+    simp only [mustReject, hc, hfB, hst, if_true, henB, hmaxB, hbdB, Bool.true_and, Bool.and_eq_true,
+      Bool.not_eq_true', decide_eq_true_eq]
+    exact ⟨⟨by simpa using hne, by omega⟩, hblk⟩
+  exact threshold_thr hthrB req good user hrej
+
+/-- **The minute is anchored, not sliding** (limit 3, block 1 min): wrong
+passwords at 0 s, 50 s, 70 s and 100 s.  The count started at 0 s dies at
+60 s, so the failure at 70 s starts a new one: the failures at 50 s, 70 s and
+100 s are three within a minute, yet the attempt at 101 s is still evaluated
+(403, not 429).  This is why `C12_threshold_run` asks that nothing be counted
+for the address when the run of failures begins. -/
+theorem C12_window_is_anchored :
+    (traceM (St.init 3 1 3600) 0
+      [.op (.login ⟨0, none, false⟩ false 0), .advance (50 * nsPerSec), .op (.login ⟨0, none, false⟩ false 0),
+       .advance (20 * nsPerSec), .op (.login ⟨0, none, false⟩ false 0),
+       .advance (30 * nsPerSec), .op (.login ⟨0, none, false⟩ false 0),
+       .advance nsPerSec, .op (.login ⟨0, none, false⟩ false 0)]).map
+      (fun e => (e.1 / nsPerSec, e.2.2)) =
+    [(0, .login .forbidden), (50, .login .forbidden), (70, .login .forbidden), (100, .login .forbidden),
+     (101, .login .forbidden)] := by
+  decide
 
 /-- **Success clears the count** (one step, any state): a login that is not
 blocked and carries the right password succeeds and leaves no record for the
@@ -193,6 +280,99 @@ theorem C12_restart_equiv (st : St) (now tok : Nat) (hmd : ∀ t, st.mem t = st.
     · simp [Option.filter, hexp]
     · simp only [Option.filter, hexp, decide_false, Bool.not_false, if_true, if_false]
       constructor <;> intro _ <;> split <;> rfl
+
+/-! ### the uint32 horizon (`expire` and the clock are `uint32` seconds) -/
+
+/-- **A wrapped expiry fails closed.**  If at a successful login
+`uint32(now) + ttl` overflows, the stored expiry is smaller than the clock, and
+the new token is never authenticated — over any later history, restarts
+included — as long as the uint32 clock does not read less than at the login
+(i.e. until the clock itself wraps in 2106).  The user is logged in but the
+cookie does not work: a loss of service, not of safety. -/
+theorem C12_wrap_fails_closed (st : St) (now : Nat) (req : Req) (user tok : Nat) (httl : st.ttl < u32)
+    (hok : (handleLogin st now req true user).1 = .ok tok) (hwrap : now32 now + st.ttl ≥ u32)
+    (evs : List Ev) (ht : timesGE (now32 now) now evs) :
+    ∀ e ∈ traceM (handleLogin st now req true user).2 now evs, e.2.1 = .request tok → e.2.2 = .auth false := by
+  rw [handleLogin_eq] at hok ⊢
+  obtain ⟨rfl, h1, h2, h3⟩ := login_ok_tables hok
+  have h32 : now32 now < u32 := Nat.mod_lt _ (by decide)
+  have hB : (now32 now + st.ttl) % u32 ≤ now32 now := by
+    have : (now32 now + st.ttl) % u32 = now32 now + st.ttl - u32 := by
+      rw [Nat.mod_eq_sub_mod hwrap, Nat.mod_eq_of_lt (by omega)]
+    omega
+  apply stale_never_auth st.nextTok ((now32 now + st.ttl) % u32) evs _ now _ (timesGE_mono hB evs now ht)
+  refine ⟨by rw [h1]; omega, ?_, ?_⟩
+  · intro s hs; rw [h2] at hs; simp [FMap.set] at hs; rw [← hs]; exact Nat.le_refl _
+  · intro s hs; rw [h3] at hs; simp [FMap.set] at hs; rw [← hs]; exact Nat.le_refl _
+
+/-- **FINDING — past the horizon an expired session is authenticated again**
+(fails open).  TTL 1000 s; login 2000 s before the uint32 clock wraps
+(2106-02-07T05:54:56Z) stores expiry 2^32 − 1000; a request 3000 s later, i.e.
+2000 s AFTER the expiry, finds the clock at 1000 < expiry and is authenticated
+— also after a restart in between.  Any session that expired before
+2106-02-07T06:28:16Z without being swept (no request with it, no restart
+since) comes back to life then.  The monitor rejects the observation. -/
+theorem C12_counterexample_uint32_horizon :
+    let t1 := (u32 - 2000) * nsPerSec
+    let t2 := (u32 + 1000) * nsPerSec
+    let st1 := (step (St.init 0 0 1000) t1 (.login ⟨0, none, false⟩ true 0)).2
+    let sp1 := (specStep (Spec.init 0 0 1000) t1 (.login ⟨0, none, false⟩ true 0) (.login (.ok 0))).2
+    (step (St.init 0 0 1000) t1 (.login ⟨0, none, false⟩ true 0)).1 = .login (.ok 0) ∧
+    (step st1 t2 (.request 0)).1 = .auth true ∧
+    (step (step st1 t2 .restart).2 t2 (.request 0)).1 = .auth true ∧
+    nowS t1 + 1000 < nowS t2 ∧
+    specOK sp1 t2 (.request 0) (.auth true) = false := by
+  decide
+
+/-! ### failing writes to sessions.db -/
+
+/-- without write failures the fallible model is the model -/
+theorem C12_faultfree_step (st : St) (now : Nat) (o : Op) : stepF st now true o = step st now o :=
+  stepF_true st now o
+
+/-- **A logout whose file delete fails still ends the session in memory**: the
+token is not found by any check until the next restart (whatever happens to
+the file). -/
+theorem C12_failed_logout_memory (st : St) (now tok : Nat) (dbOK dbOK' : Bool) :
+    (checkSessionF (logoutF st tok dbOK) now tok dbOK').1 = .notFound ∧
+    (checkSessionF (logoutF st tok dbOK) now tok dbOK').2 = logoutF st tok dbOK := by
+  simp [checkSessionF, logoutF, FMap.erase]
+
+/-- **FINDING — a logout whose file delete fails is undone by a restart**:
+login (token 0, TTL 1 h), logout while sessions.db cannot be written, restart
+on the same file: the logged-out token authenticates again (until its
+expiry).  The monitor rejects the observation. -/
+theorem C12_counterexample_failed_logout_restart :
+    let t := 946684800 * nsPerSec
+    let st1 := (stepF (St.init 5 15 3600) t true (.login ⟨0, none, false⟩ true 0)).2
+    let st2 := (stepF st1 t false (.logout 0)).2
+    let st3 := (stepF st2 (t + nsPerSec) true .restart).2
+    (stepF st2 t true (.request 0)).1 = .auth false ∧
+    (stepF st3 (t + nsPerSec) true (.request 0)).1 = .auth true := by
+  decide
+
+/-- **A login whose file store fails, fails closed**: the session lives in
+memory only; after a restart the token is unknown. -/
+theorem C12_failed_store_fails_closed (st : St) (now now' : Nat) (req : Req) (user : Nat)
+    (hfresh : st.db st.nextTok = none) :
+    (restart (handleLoginF st now req true user false).2 now').mem st.nextTok = none := by
+  simp only [restart, handleLoginF_false_db, hfresh]
+  rfl
+
+/-- **A lazy expiry whose file delete fails stays dead**: the expired entry
+left in the file is not loaded by a later restart (before the clock wraps). -/
+theorem C12_failed_expiry_delete_stays_dead (st : St) (now now' tok : Nat) (s : Sess)
+    (hm : st.mem tok = some s) (hdb : st.db tok = some s) (hexp : s.expire ≤ now32 now)
+    (hmono : now32 now ≤ now32 now') :
+    (checkSessionF st now tok false).1 = .expired ∧
+    (restart (checkSessionF st now tok false).2 now').mem tok = none := by
+  have h1 : checkSessionF st now tok false =
+      (.expired, { st with mem := st.mem.erase tok, db := st.db }) := by
+    simp [checkSessionF, hm, hexp]
+  rw [h1]
+  refine ⟨rfl, ?_⟩
+  have : s.expire ≤ now32 now' := Nat.le_trans hexp hmono
+  simp [restart, hdb, Option.filter, this]
 
 /-- in every reachable state the memory map mirrors the sessions file -/
 theorem C12_mem_mirrors_db (ma bm ttl now : Nat) (evs : List Ev)
